@@ -88,7 +88,7 @@ def run(report, p):
     r3.check(len(rets) == 1 and norm(rets[0].value) == "self.hasher.hexdigest()", sd, rets[0] if rets else sd.node, "hex digests are not the library's hexdigest() as is (lower-case, full length)", construct=f"string_digest returns {norm(rets[0].value) if rets else '-'}")
     bd = p.classes[hexh].methods.get("bytes_from_string_digest")
     rets = [n for n in walk_no_nested(bd.node) if isinstance(n, ast.Return)]
-    r3.check(len(rets) == 1 and norm(rets[0].value) in (f"binascii.unhexlify({bd.params[1]})", f"bytes.fromhex({bd.params[1]})"), bd, rets[0] if rets else bd.node, "hex digests are not decoded with unhexlify / bytes.fromhex", construct="hex decoder")
+    r3.check(len(rets) == 1 and norm(rets[0].value) in (f"binascii.unhexlify({bd.params[-1]})", f"bytes.fromhex({bd.params[-1]})"), bd, rets[0] if rets else bd.node, "hex digests are not decoded with unhexlify / bytes.fromhex", construct="hex decoder")
     # no class overrides string_digest except the hex and c4 implementations
     impls = [cq for cq, c in p.classes.items() if "string_digest" in c.methods and c.module.name.endswith("hasher")]
     r3.check(len(impls) == 3, None, None, f"string_digest is implemented by {impls}: a format-specific override changes the text form", construct="string_digest implementations")
